@@ -34,5 +34,7 @@ def grow(w: Warehouse, size: int) -> int:
 
 
 def cursor(w: Warehouse) -> object:
-    """A value that is only assertable by its type name."""
-    return iter(range(w.size))
+    """A value that is only assertable by its type name (a type of another module)."""
+    import itertools
+
+    return itertools.count(w.size)
